@@ -8,8 +8,12 @@ from predicate.predicate import Predicate
 class RegexPredicate[T](Predicate[T]):
     """A predicate class that holds a regular expression."""
 
+    pattern: str
+    flags: int
+
     def __init__(self, pattern: str, flags: int = 0):
         self.pattern = pattern
+        self.flags = flags
         self.regex = re.compile(pattern, flags)
 
     def __call__(self, x: str) -> bool:
